@@ -6,6 +6,7 @@ import (
 	"encoding/binary"
 	"encoding/hex"
 	"fmt"
+	"hash/crc32"
 	"io"
 	"math/rand"
 	"net"
@@ -298,7 +299,87 @@ func padBatchTo(mb *pb.MessageBatch, target int, rng *rand.Rand) {
 	}
 }
 
-var frameClasses = []string{"tiny-batch", "medium-batch", "tiny-batch", "medium-chunk", "medium-batch", "large-chunk", "medium-batch", "large-batch"}
+// solveAffine32 finds x with f(x) == target for a function that is affine over
+// GF(2) in the 32 bits of x (as CRC32 is in any 4 bytes of its input).
+func solveAffine32(f func(uint32) uint32, target uint32) (uint32, bool) {
+	base := f(0)
+	var col [32]uint32 // col[i] = effect of bit i of x
+	for i := 0; i < 32; i++ {
+		col[i] = f(1<<uint(i)) ^ base
+	}
+	// Gaussian elimination: basis[b] = (vector with leading bit b, combination of x bits)
+	var bv, bx [32]uint32
+	var have [32]bool
+	for i := 0; i < 32; i++ {
+		v, x := col[i], uint32(1)<<uint(i)
+		for b := 31; b >= 0 && v != 0; b-- {
+			if v&(1<<uint(b)) == 0 {
+				continue
+			}
+			if !have[b] {
+				have[b], bv[b], bx[b] = true, v, x
+				v = 0
+				break
+			}
+			v ^= bv[b]
+			x ^= bx[b]
+		}
+	}
+	want, x := base^target, uint32(0)
+	for b := 31; b >= 0 && want != 0; b-- {
+		if want&(1<<uint(b)) == 0 {
+			continue
+		}
+		if !have[b] {
+			return 0, false
+		}
+		want ^= bv[b]
+		x ^= bx[b]
+	}
+	return x, f(x) == target
+}
+
+// solveFrameCRC sets the first four bytes of slot (a slice that is part of mb)
+// so that the CRC32 of the encoded batch (which == "payload") or the CRC32 of
+// the frame header written for it (which == "header") equals target.
+func solveFrameCRC(mb *pb.MessageBatch, slot []byte, which string, target uint32) bool {
+	enc, err := mb.Marshal()
+	if err != nil {
+		return false
+	}
+	off := bytes.LastIndex(enc, slot)
+	if off < 0 || len(slot) < 4 {
+		return false
+	}
+	payloadTarget := target
+	if which == "header" {
+		// header = method(2) size(8) headercrc(4, zero while summing) payloadcrc(4)
+		hdr := func(p uint32) uint32 {
+			var b [headerLen]byte
+			binary.BigEndian.PutUint16(b[:], transport.VerifRaftType)
+			binary.BigEndian.PutUint64(b[2:], uint64(len(enc)))
+			binary.BigEndian.PutUint32(b[14:], p)
+			return crc32.ChecksumIEEE(b[:])
+		}
+		p, ok := solveAffine32(hdr, target)
+		if !ok {
+			return false
+		}
+		payloadTarget = p
+	}
+	x, ok := solveAffine32(func(x uint32) uint32 {
+		binary.LittleEndian.PutUint32(enc[off:], x)
+		return crc32.ChecksumIEEE(enc)
+	}, payloadTarget)
+	if !ok {
+		return false
+	}
+	binary.LittleEndian.PutUint32(slot, x)
+	chk, err := mb.Marshal()
+	return err == nil && crc32.ChecksumIEEE(chk) == payloadTarget
+}
+
+var frameClasses = []string{"tiny-batch", "medium-batch", "crc-boundary-batch", "medium-chunk", "medium-batch", "large-chunk", "medium-batch", "large-batch"}
 
 // build generates the value of a frame class from (label, n) and lets the
 // real sender write it.
@@ -311,6 +392,30 @@ func (f *framesCtx) build(label string, n int, class string) (*builtFrame, error
 		case "tiny-batch":
 			g.reset(64, 16)
 			mb := tinyBatch(g)
+			return &mb, nil, g.h
+		case "crc-boundary-batch":
+			// a small batch whose payload (or header) CRC32 is a boundary value of
+			// the checksum field: 0, 2^32-1, 1, 2^31. Four bytes of an entry's
+			// command are solved for it (CRC32 is affine over GF(2)).
+			g.reset(64, 16)
+			mb := tinyBatch(g)
+			cmd := make([]byte, 8+rng.Intn(40))
+			rng.Read(cmd)
+			mb.Requests = append(mb.Requests, pb.Message{Type: pb.Replicate, To: 2, From: 1, ShardID: 1, Term: 5,
+				Entries: []pb.Entry{{Term: 5, Index: 100, Cmd: cmd}}})
+			targets := []uint32{0, 0xFFFFFFFF, 0, 1, 0x80000000, 0}
+			t := targets[rng.Intn(len(targets))]
+			which := "payload"
+			if rng.Intn(3) == 0 {
+				which = "header"
+			}
+			if solveFrameCRC(&mb, cmd, which, t) {
+				st[fmt.Sprintf("crc_boundary_frames:%s-crc=%#x", which, t)]++
+			} else {
+				st["crc_boundary_frames:unsolved"]++
+			}
+			g.hu(uint64(t))
+			g.hu(uint64(len(which)))
 			return &mb, nil, g.h
 		case "medium-batch":
 			g.reset(48<<10, 16<<10)
